@@ -17,7 +17,7 @@ Dagger(op)              == [op EXCEPT !.dag = ~@]
 
 Symp1Names  == {"Rgate", "Sgate", "Pgate", "Fouriergate"}
 Symp2Names  == {"BSgate", "S2gate", "CXgate", "CZgate", "MZgate"}
-SympNNames  == {"GaussianTransform"}          \* p = <<S>>: an explicit symplectic matrix (local xxpp over the targets)
+SympNNames  == {"GaussianTransform", "Interferometer"}   \* p = <<S>>: explicit symplectic matrix (local xxpp over the targets); p = <<U>>: complex unitary
 DispNames   == {"Dgate", "Xgate", "Zgate"}
 ChanNames   == {"LossChannel", "ThermalLossChannel"}
 PrepNames   == {"Vacuum", "Coherent", "Squeezed", "DisplacedSqueezed", "Thermal"}
@@ -44,6 +44,7 @@ Matrix(op) ==
     [] op.name = "CXgate"      -> CX(op.p[1])
     [] op.name = "CZgate"      -> CZ(op.p[1])
     [] op.name = "GaussianTransform" -> op.p[1]
+    [] op.name = "Interferometer"    -> FromUC(op.p[1])
 SympOf(op) == IF op.dag THEN SympInv(Matrix(op)) ELSE Matrix(op)
 
 \* displacement (dx, dp) in kernel units of a displacement-type gate at hbar factor k
